@@ -85,6 +85,18 @@ def sample(rng, n, V, maxc, maxh):
     return out
 
 
+def family_backjump():
+    """two ternary clauses  (!p | !r | x), (!q | !r | !x)  in every literal order, decisions p, q, r in two orders: the conflict at
+    level 3 involves two earlier levels, so the backjump level is a maximum over literals visited in clause order"""
+    out = []
+    c1 = [L(-1), L(-3), L(4)]; c2 = [L(-2), L(-3), L(-4)]
+    for o1 in itertools.permutations(c1):
+        for o2 in itertools.permutations(c2):
+            for order in ((1, 2, 3), (2, 1, 3)):
+                out.append((4, [list(o1), list(o2)], [('assume', L(v)) for v in order] + [('assume', L(4))]))
+    return out
+
+
 def family_small():
     """systematic: every set of 2 clauses (size <= 2) over 2 variables x every history of length 2 over {assume(+-b1), assume(+-b2), pop, next, check(+-b1)}"""
     lits = [(1, 1), (1, 0), (2, 1), (2, 0)]
@@ -99,9 +111,11 @@ def jobs(tier):
     seed = int(os.environ.get('VERIF_SEED', '0') or 0)
     rng = random.Random(1234 + seed)
     scs = list(CURATED)
+    fb = family_backjump()
+    scs += fb[::2] if tier == 'quick' else fb
     if tier == 'quick':
-        scs += sample(rng, 90, 3, 4, 4)
-        scs += sample(rng, 40, 4, 5, 5)
+        scs += sample(rng, 70, 3, 4, 4)
+        scs += sample(rng, 30, 4, 5, 5)
         k = 6
     else:
         scs += sample(rng, 400, 3, 4, 5)
